@@ -374,6 +374,9 @@ func runSaved[C any](h *H, s *subStats, name string, safe func(C) Verdict) {
 func Enumerate[C any](h *H, name string, cases func(yield func(C)), prop func(C) Verdict) {
 	s := h.sub(name)
 	s.Exhaustive = true
+	if h.Shards > 1 && h.Shard != 0 && h.replay == "" {
+		return // a finite enumeration is run by one shard only
+	}
 	if h.replay != "" {
 		sub, c, err := loadCase[C](h.replay)
 		if err != nil || sub != name {
